@@ -649,6 +649,16 @@ func (h *bufHarness) sorter() {
 			}
 		}
 	}
+	// three or more 1024-slice chunks (a merged run is merged again) under comparison functions
+	// with many ties between slices of DIFFERENT length: whatever the seed, also in the quick tier
+	if r.Scale < 4 {
+		if h.sortCase(2100+int(r.Seed)%900, bufLesses[2], int(r.Seed)%3, 0) { // "last"
+			return
+		}
+		if h.sortCase(3073+int(r.Seed)%200, bufLesses[1+int(r.Seed)%2*2], (int(r.Seed)+1)%3, 3*(int(r.Seed)%2)) { // "len" / "false"
+			return
+		}
+	}
 	// many small random cases, sub-ranges, repeated sorts
 	for i := 0; i < 10*r.Scale; i++ {
 		n := r.Rng.Intn(40)
